@@ -480,6 +480,16 @@ func (c *canon) val(v ssa.Value, d int) string {
 	case *ssa.Lookup:
 		return c.val(x.X, d) + "[" + c.val(x.Index, d-1) + "]"
 	case *ssa.Slice:
+		if al, ok := x.X.(*ssa.Alloc); ok && x.Low == nil && x.High == nil {
+			// variadic argument pack: [N]T array filled element by element
+			if elems := arrayElems(al); elems != nil {
+				var es []string
+				for _, e := range elems {
+					es = append(es, c.val(e, d-1))
+				}
+				return "[" + strings.Join(es, ",") + "]"
+			}
+		}
 		s := c.val(x.X, d) + "["
 		if x.Low != nil {
 			s += c.val(x.Low, d-1)
@@ -586,6 +596,49 @@ func (c *canon) val(v ssa.Value, d int) string {
 		return x.Name()
 	}
 	return "<" + namedOf(v.Type()) + ">"
+}
+
+// arrayElems: values stored at constant indices of a local array (each index once).
+func arrayElems(al *ssa.Alloc) []ssa.Value {
+	pt, ok := al.Type().(*types.Pointer)
+	if !ok {
+		return nil
+	}
+	at, ok := pt.Elem().Underlying().(*types.Array)
+	if !ok || at.Len() > 16 {
+		return nil
+	}
+	out := make([]ssa.Value, at.Len())
+	refs := al.Referrers()
+	if refs == nil {
+		return nil
+	}
+	for _, r := range *refs {
+		ia, ok := r.(*ssa.IndexAddr)
+		if !ok {
+			continue
+		}
+		n, ok := ConstInt(ia.Index)
+		if !ok || n < 0 || n >= at.Len() {
+			return nil
+		}
+		if irefs := ia.Referrers(); irefs != nil {
+			for _, rr := range *irefs {
+				if st, ok := rr.(*ssa.Store); ok && st.Addr == ia {
+					if out[n] != nil {
+						return nil
+					}
+					out[n] = st.Val
+				}
+			}
+		}
+	}
+	for _, v := range out {
+		if v == nil {
+			return nil
+		}
+	}
+	return out
 }
 
 // isLoopCounter: phi{init, phi+1} with constant init 0 (classic loop) or -1
